@@ -160,7 +160,11 @@ def cmd_table():
             note = (note + " " if note else "") + m["status"].split(":")[0]
         if m.get("strengthened"):
             note = (note + "; " if note else "") + m["strengthened"]
-        rows.append("| %s | %s | %s | %s | %s |" % (i, title, "yes" if conf else "no", ", ".join(det) if det else ("MISSED by " + ",".join(miss) if miss else "-"), note))
+        own = m.get("property", i.split("-")[0])
+        dtxt = ", ".join(det) if det else ("MISSED by " + ",".join(miss) if miss else "-")
+        if det and own in miss:
+            dtxt += " (not by %s itself)" % own
+        rows.append("| %s | %s | %s | %s | %s |" % (i, title, "yes" if conf else "no", dtxt, note))
     print("| id | change | confirmed | detected by (check, first violation class) | note |")
     print("|---|---|---|---|---|")
     print("\n".join(rows))
